@@ -754,3 +754,125 @@ def _digest(fp):
 
     rec(fp)
     return h.hexdigest()
+
+
+# ----------------------------------------------------------------------------- constructor inputs (C19)
+def _input_snapshot(obj):
+    """Deep, comparable snapshot of a constructor input (array, list, dict, Dataset)."""
+    import copy
+
+    import xarray as xr
+
+    if isinstance(obj, np.ndarray):
+        return ("nd", str(obj.dtype), obj.shape, obj.tobytes())
+    if isinstance(obj, xr.Dataset):
+        return (
+            "ds",
+            repr(sorted(obj.attrs.items(), key=lambda kv: str(kv[0]))),
+            tuple(sorted(str(d) for d in obj.dims)),
+            tuple(
+                (str(n), tuple(obj[n].dims), str(obj[n].dtype), np.asarray(obj[n].values).tobytes(), repr(sorted(obj[n].attrs.items(), key=lambda kv: str(kv[0]))))
+                for n in sorted(obj.variables, key=str)
+            ),
+        )
+    return ("py", repr(copy.deepcopy(obj)))
+
+
+def _topo_inputs(name, rot, cut, container, fill, start_index, extra=False):
+    e = _cat(name, rot, cut)
+    lon, lat = _lonlat(e["nodes"])
+    INT_DTYPE, FILL = hux.consts()
+    fv = {"std": FILL, "m1": -1, "none": None}[fill]
+    w = max(len(f) for f in e["faces"])
+    if fv is None and any(len(f) != w for f in e["faces"]):
+        raise ValueError("no fill value needs uniform faces")
+    conn = np.full((len(e["faces"]), w), 0 if fv is None else fv, dtype=INT_DTYPE)
+    for i, f in enumerate(e["faces"]):
+        conn[i, : len(f)] = np.array(f) + start_index
+    if container == "list":
+        # coordinate lists; from_topology documents the connectivity as an ndarray
+        return {"node_lon": lon.tolist(), "node_lat": lat.tolist(), "face_node_connectivity": conn}, fv
+    return {"node_lon": lon.copy(), "node_lat": lat.copy(), "face_node_connectivity": conn}, fv
+
+
+def _tracked_topology(name, rot, cut, container, fill, start_index):
+    def make():
+        ux = hux.import_ux()
+        inp, fv = _topo_inputs(name, rot, cut, container, fill, start_index)
+        return inp, lambda: ux.Grid.from_topology(inp["node_lon"], inp["node_lat"], inp["face_node_connectivity"], fill_value=fv, start_index=start_index)
+
+    return make
+
+
+def _tracked_vertices(name, rot, cut, container, latlon):
+    def make():
+        ux = hux.import_ux()
+        e = _cat(name, rot, cut)
+        if latlon:
+            verts = [[list(lattice.lonlat_deg(e["nodes"][n])) for n in f] for f in e["faces"]]
+        else:
+            verts = [[list(lattice.unit(e["nodes"][n])) for n in f] for f in e["faces"]]
+        if container == "nd":
+            verts = np.array(verts, dtype=float)
+        return {"face_vertices": verts}, lambda: ux.Grid.from_face_vertices(verts, latlon=latlon)
+
+    return make
+
+
+def _tracked_dataset(name, rot, cut):
+    def make():
+        import xarray as xr
+
+        ux = hux.import_ux()
+        e = _cat(name, rot, cut)
+        lon, lat = _lonlat(e["nodes"])
+        conn = hux.pad_table(e["faces"], fill=-1).astype(np.int32) + 1
+        conn[conn == 0] = -1
+        ds = xr.Dataset(attrs={"title": "caller's dataset", "history": ["a", "b"]})
+        ds["mesh"] = xr.DataArray(
+            -1, attrs={"cf_role": "mesh_topology", "topology_dimension": 2, "node_coordinates": "lon lat", "face_node_connectivity": "fnc"}
+        )
+        ds["lon"] = xr.DataArray(np.where(lon < 0, lon + 360, lon), dims=["nn"], attrs={"units": "degrees_east"})
+        ds["lat"] = xr.DataArray(lat, dims=["nn"], attrs={"units": "degrees_north"})
+        ds["fnc"] = xr.DataArray(conn, dims=["nf", "nmax"], attrs={"cf_role": "face_node_connectivity", "start_index": 1, "_FillValue": -1})
+        return {"dataset": ds}, lambda: ux.open_grid(ds)
+
+    return make
+
+
+TRACKED = {
+    "t_nd_std1": _tracked_topology("cuboctahedron", 7, 0, "nd", "std", 1),
+    "t_nd_m1_0": _tracked_topology("cuboctahedron", 7, 2, "nd", "m1", 0),
+    "t_nd_std0": _tracked_topology("truncated_octahedron", 3, 3, "nd", "std", 0),
+    "t_list_m1_1": _tracked_topology("cuboctahedron", 4, 0, "list", "m1", 1),
+    "t_nd_none1": _tracked_topology("cube", 5, 0, "nd", "none", 1),
+    "v_nd_ll": _tracked_vertices("cube", 5, 0, "nd", True),
+    "v_list_xyz": _tracked_vertices("octahedron", 3, 0, "list", False),
+    "d_ugrid": _tracked_dataset("rhombic_dodecahedron", 2, 0),
+}
+_INPUTS = {}
+
+
+def _mk_tracked(name):
+    def make():
+        inp, build = TRACKED[name]()
+        snap = {k: _input_snapshot(v) for k, v in inp.items()}
+        g = build()
+        g._verif_inputs = (inp, snap)
+        return g
+
+    return make
+
+
+for _n in TRACKED:
+    SOURCES[_n] = _mk_tracked(_n)
+
+
+def inputs_changed(grid):
+    """Names of the constructor inputs of `grid` whose contents differ from what they were
+    right before construction."""
+    ent = getattr(grid, "_verif_inputs", None)
+    if ent is None:
+        return []
+    inp, snap = ent
+    return sorted(k for k, v in inp.items() if _input_snapshot(v) != snap[k])
